@@ -22,6 +22,13 @@ def runOne (j : Json) : Except String Json := do
                     ("evals", Json.arr (tr.map (fun r => toJson r.2)).toArray),
                     ("count", toJson st.count), ("last", toJson st.last)])
 
+def evalOne (j : Json) : Except String Json := do
+  let ev ← parseOracle j "oracle"
+  let es ← (← getArr j "exprs").toList.mapM (fun e => e.getStr?)
+  let rs := evalAll ev es
+  pure (Json.arr (rs.map (fun r => Json.mkObj [("expr", Json.str r.expr), ("failed", Json.bool r.failed),
+                                                ("ty", Json.str r.ty), ("value", Json.str r.value)])).toArray)
+
 def handle (j : Json) : Except String Json := do
   let op ← getStr j "op"
   match op with
@@ -45,12 +52,11 @@ def handle (j : Json) : Except String Json := do
     let res := names.map (fun r => (resolve (handlerEnv f a) b r.1).getD "NameError")
     pure (Json.mkObj [("resolved", strs res), ("globals", Json.str (srcName evalGlobals)),
                       ("locals", Json.str (srcName evalLocals))])
-  | "evalall" =>
-    let ev ← parseOracle j "oracle"
-    let es ← (← getArr j "exprs").toList.mapM (fun e => e.getStr?)
-    let rs := evalAll ev es
-    pure (Json.arr (rs.map (fun r => Json.mkObj [("expr", Json.str r.expr), ("failed", Json.bool r.failed),
-                                                  ("ty", Json.str r.ty), ("value", Json.str r.value)])).toArray)
+  | "evalall" => evalOne j
+  | "evalallN" =>
+    -- several hits (threads), each with the oracle of its own frame
+    let rs ← (← getArr j "threads").toList.mapM evalOne
+    pure (Json.mkObj [("threads", Json.arr rs.toArray)])
   | _ => throw s!"unknown op {op}"
 
 def main : IO Unit := serve handle
